@@ -1,4 +1,5 @@
 import DS.Lemmas.CifRow
+import DS.Props.C09
 /-!
 # C07, row phase — spelling independence of the atom-site loops of the CIF reader
 
@@ -12,7 +13,7 @@ the `cifrow.parse` correspondence stream of `harness/c07.py`).  Scalars are real
 * `B_vs_U`, `cartn_vs_fract`, `aniso_loop_order`, `label_unknown_q_site`, `label_unknown_q_aniso`.
 -/
 namespace DS.Props.C07Row
-open DS DS.CifRow
+open DS DS.CifRow Real
 
 /-! ## any column order -/
 
@@ -76,5 +77,744 @@ example : demoSite.reverse.Perm demoSite := List.reverse_perm _
 example : ObsEq (applyCols demoSite.reverse (Atom.fresh (some cartesianLat))) (applyCols demoSite (Atom.fresh (some cartesianLat))) :=
   row_col_perm (List.reverse_perm _) (fun _ h => by cases h; exact latOK_cartesian)
     ((show RowShape false demoSite by decide).perm (List.reverse_perm _).symm)
+
+/-! ## … but not every column order: each clause of `RowShape` is needed -/
+
+theorem adpFlag_Uani : adpFlag "Uani" = true := by decide
+theorem adpFlag_Uiso : adpFlag "Uiso" = false := by decide
+
+/-- the fresh atom of the site loop in the default (Cartesian) lattice -/
+noncomputable def a0 : Atom ℝ := Atom.fresh (some cartesianLat)
+
+theorem obsEq_U_of_aniso {a b : Atom ℝ} (h : ObsEq a b) (ha : a.s.aniso = true) : a.s.U = b.s.U := by
+  rw [h.2.2.2.eq_of_aniso ha]
+
+/-- **Not any column order (1).**  `adp_type = Uani` before / after a tensor component: given after, the component is lost. -/
+theorem row_order_dependent_adp_type_aniso :
+    ¬ ObsEq (applyCols [(.adpType, ⟨"Uani", none⟩), (.anisoU .p12, ⟨"0.001", some (1 / 1000)⟩)] a0)
+            (applyCols [(.anisoU .p12, ⟨"0.001", some (1 / 1000)⟩), (.adpType, ⟨"Uani", none⟩)] a0) := by
+  intro h
+  have hU := obsEq_U_of_aniso h (by
+    simp [applyCols, applySetter, eff, Eff.run, Atom.liftS, a0, Atom.fresh, AtomS.default, setAniso_aniso, setUij_aniso, adpFlag_Uani])
+  have := congrArg Mat3.a12 hU
+  simp [applyCols, applySetter, eff, Eff.run, Atom.liftS, a0, Atom.fresh, AtomS.default, AtomS.setAniso, AtomS.getU,
+    AtomS.setUij, adpFlag_Uani, numOf, Mat3.set, AtomS.latOf, cartesianLat, Mat3.smul, Mat3.one, Mat3.zero, Pair.i, Pair.j] at this
+
+
+/-- **Not any column order (2).**  Isotropic atom, `U_iso_or_equiv` before / after `aniso_U_11 = .`: the later one wins. -/
+theorem row_order_dependent_iso_aniso_flag_off :
+    ¬ ObsEq (applyCols [(.uiso, ⟨"0.025", some (1 / 40)⟩), (.anisoU .p11, ⟨".", none⟩)] a0)
+            (applyCols [(.anisoU .p11, ⟨".", none⟩), (.uiso, ⟨"0.025", some (1 / 40)⟩)] a0) := by
+  intro h
+  have := h.2.2.2.a11
+  simp [applyCols, applySetter, eff, Eff.run, Atom.liftS, a0, Atom.fresh, AtomS.default, AtomS.setUiso,
+    AtomS.setUij, numOf, Mat3.set, Mat3.zero, Pair.i, Pair.j] at this
+
+/-- **Not any column order (3).**  Anisotropic atom, `U_iso_or_equiv` before / after a tensor component: given after,
+it rescales the tensor. -/
+theorem row_order_dependent_iso_aniso_flag_on :
+    ¬ ObsEq (applyCols [(.adpType, ⟨"Uani", none⟩), (.uiso, ⟨"0.02", some (1 / 50)⟩), (.anisoU .p11, ⟨"0.01", some (1 / 100)⟩)] a0)
+            (applyCols [(.adpType, ⟨"Uani", none⟩), (.anisoU .p11, ⟨"0.01", some (1 / 100)⟩), (.uiso, ⟨"0.02", some (1 / 50)⟩)] a0) := by
+  intro h
+  have hU := obsEq_U_of_aniso h (by
+    simp [applyCols, applySetter, eff, Eff.run, Atom.liftS, a0, Atom.fresh, AtomS.default, setAniso_aniso, setUij_aniso,
+      setUiso_aniso, adpFlag_Uani])
+  have := congrArg Mat3.a11 hU
+  simp [applyCols, applySetter, eff, Eff.run, Atom.liftS, a0, Atom.fresh, AtomS.default, AtomS.setAniso, AtomS.getU,
+    AtomS.setUij, AtomS.setUiso, AtomS.uisoequiv, adpFlag_Uani, numOf, Mat3.set, AtomS.latOf, cartesianLat, Mat3.smul,
+    Mat3.one, Mat3.zero, Mat3.scaleR, Pair.i, Pair.j, absα, AdpConst.eps] at this
+  norm_num at this
+
+/-- **Not any column order (4).**  An empty `type_symbol` before / after the label. -/
+theorem row_order_dependent_label_type :
+    ¬ ObsEq (applyCols [(.label, ⟨"C1", none⟩), (.typeSymbol, ⟨"", none⟩)] a0)
+            (applyCols [(.typeSymbol, ⟨"", none⟩), (.label, ⟨"C1", none⟩)] a0) := by
+  intro h
+  have := h.1
+  revert this
+  simp only [applyCols, List.foldl, applySetter, eff, Eff.run, labelNames, a0, Atom.fresh]
+  decide
+
+/-- the atom of the site loop in the oblique lattice `obl` (base vectors (5,0,0), (3,4,0), (0,0,1)) -/
+noncomputable def aObl : Atom ℝ := Atom.fresh (some DS.Props.C09.obl)
+
+/-- **Not any column order (5).**  A fractional and a Cartesian coordinate in one row of an oblique cell. -/
+theorem row_order_dependent_fract_cartn :
+    ¬ ObsEq (applyCols [(.fract .i0, ⟨"0.1", some (1 / 10)⟩), (.cartn .i1, ⟨"1", some 1⟩)] aObl)
+            (applyCols [(.cartn .i1, ⟨"1", some 1⟩), (.fract .i0, ⟨"0.1", some (1 / 10)⟩)] aObl) := by
+  intro h
+  have := congrArg Vec3.x h.2.2.2.1
+  simp [applyCols, applySetter, eff, Eff.run, Atom.movePos, aObl, Atom.fresh, AtomS.default, setXyzIx, setCartnIx,
+    Vec3.setIx, numOf, frac, LatData.cart, Mat3.vecMul, DS.Props.C09.obl, Vec3.zero] at this
+
+/-! ## `B` values vs `U` values -/
+
+/-- the `U` spelling of an item -/
+def toUItem : Item → Item
+  | .biso => .uiso
+  | .anisoB p => .anisoU p
+  | it => it
+
+/-- the value of the `U` spelling: `B / (8π²)`; `.` and `?` stay what they are -/
+noncomputable def toUVal (it : Item) (v : Value ℝ) : Value ℝ :=
+  match it with
+  | .biso | .anisoB _ => { text := v.text, num := v.num.map (· / (8 * π ^ 2)) }
+  | _ => v
+
+noncomputable def toUCol (c : Col ℝ) : Col ℝ := (toUItem c.1, toUVal c.1 c.2)
+
+theorem numOf_toU (v : Value ℝ) :
+    numOf ({ text := v.text, num := v.num.map (· / (8 * π ^ 2)) } : Value ℝ) 0 = BtoU * numOf v 0 := by
+  rw [BtoU_eq]
+  cases h : v.num with
+  | none => simp [numOf, h]
+  | some b => simp only [numOf, h, Option.map_some, Option.getD_some]; ring
+
+/-- **B vs U, per item** (iso and the six aniso components): the setter of the `B` item on `b` does what the setter of
+the `U` item does on `b / (8π²)`. -/
+theorem B_vs_U_item (c : Col ℝ) (a : Atom ℝ) :
+    applySetter (toUCol c).1 (toUCol c).2 a = applySetter c.1 c.2 a := by
+  obtain ⟨it, v⟩ := c
+  cases it <;> simp only [toUCol, toUItem, toUVal, applySetter, eff, numOf_toU]
+
+/-- **B vs U, per row.** -/
+theorem B_vs_U (cols : List (Col ℝ)) (a : Atom ℝ) : applyCols (cols.map toUCol) a = applyCols cols a := by
+  induction cols generalizing a with
+  | nil => rfl
+  | cons c cs ih => simp only [applyCols, List.map_cons, List.foldl_cons, B_vs_U_item] at ih ⊢; exact ih _
+
+theorem B_vs_U_valid (cols : List (Col ℝ)) : colsValid (cols.map toUCol) = colsValid cols := by
+  simp only [colsValid, List.all_map]
+  congr 1
+  funext c
+  obtain ⟨it, v⟩ := c
+  cases it <;> simp [toUCol, toUItem, toUVal, valueOK, needsNum]
+
+
+theorem toUVal_text (it : Item) (v : Value ℝ) : (toUVal it v).text = v.text := by cases it <;> rfl
+
+/-- a row of values re-spelt column by column -/
+noncomputable def toURow (its : List Item) (vals : List (Value ℝ)) : List (Value ℝ) := List.zipWith toUVal its vals
+
+theorem zip_toU (its : List Item) (vals : List (Value ℝ)) :
+    (its.map toUItem).zip (toURow its vals) = (its.zip vals).map toUCol := by
+  induction its generalizing vals with
+  | nil => rfl
+  | cons it its ih =>
+    cases vals with
+    | nil => rfl
+    | cons v vs => simp only [toURow, List.map_cons, List.zipWith_cons_cons, List.zip_cons_cons, toUCol] at ih ⊢; rw [ih]
+
+theorem rowLabel_toU {its : List Item} {vals : List (Value ℝ)} (h : vals.length ≤ its.length) (ilb : Nat) :
+    rowLabel ilb (toURow its vals) = rowLabel ilb vals := by
+  induction its generalizing vals ilb with
+  | nil => cases vals with
+    | nil => rfl
+    | cons v vs => simp at h
+  | cons it its ih =>
+    cases vals with
+    | nil => rfl
+    | cons v vs =>
+      cases ilb with
+      | zero => simp [rowLabel, toURow, toUVal_text]
+      | succ n =>
+        have := ih (vals := vs) (by simpa using h) n
+        simpa [rowLabel, toURow] using this
+
+/-- **B vs U, site loop**: the loop with every `B` column re-spelt as `U` builds the same parser state. -/
+theorem B_vs_U_site (lat : Option (LatData ℝ)) (its : List Item) (ilb : Nat) (doesAdp : Bool)
+    (rows : List (List (Value ℝ))) (hlen : ∀ r ∈ rows, r.length ≤ its.length) (st : PState ℝ) :
+    siteLoop lat (its.map toUItem) ilb doesAdp st (rows.map (toURow its)) = siteLoop lat its ilb doesAdp st rows := by
+  induction rows generalizing st with
+  | nil => rfl
+  | cons r rs ih =>
+    have hr : siteRow lat (its.map toUItem) ilb doesAdp st (toURow its r) = siteRow lat its ilb doesAdp st r := by
+      simp only [siteRow, rowLabel_toU (hlen r (by simp)), zip_toU, B_vs_U, B_vs_U_valid]
+    simp only [List.map_cons, siteLoop, hr]
+    cases siteRow lat its ilb doesAdp st r with
+    | none => rfl
+    | some st' => exact ih (fun r hr => hlen r (List.mem_cons_of_mem _ hr)) st'
+
+/-- **B vs U, aniso loop.** -/
+theorem B_vs_U_aniso (its : List Item) (ilb : Nat) (rows : List (List (Value ℝ)))
+    (hlen : ∀ r ∈ rows, r.length ≤ its.length) (st : PState ℝ) :
+    anisoLoop (its.map toUItem) ilb st (rows.map (toURow its)) = anisoLoop its ilb st rows := by
+  unfold anisoLoop
+  generalize LoopSt.run st = ls
+  induction rows generalizing ls with
+  | nil => rfl
+  | cons r rs ih =>
+    have hr : anisoStep (its.map toUItem) ilb ls (toURow its r) = anisoStep its ilb ls r := by
+      cases ls with
+      | run s => simp only [anisoStep, anisoRow, rowLabel_toU (hlen r (by simp)), zip_toU, B_vs_U, B_vs_U_valid]
+      | done s => rfl
+      | err => rfl
+    simp only [List.map_cons, List.foldl_cons, hr]
+    exact ih (fun r hr => hlen r (List.mem_cons_of_mem _ hr)) _
+
+/-! ## Cartesian vs fractional coordinates -/
+
+/-- equal except for the position -/
+def EqUpToXyz (a b : Atom ℝ) : Prop :=
+  a.element = b.element ∧ a.label = b.label ∧ a.occ = b.occ ∧ a.s.U = b.s.U ∧ a.s.aniso = b.s.aniso ∧ a.s.lat = b.s.lat
+
+theorem EqUpToXyz.eq {a b : Atom ℝ} (h : EqUpToXyz a b) (hx : a.s.xyz = b.s.xyz) : a = b := by
+  obtain ⟨h1, h2, h3, h4, h5, h6⟩ := h
+  cases a with | mk e l o s => cases b with | mk e' l' o' s' =>
+  cases s; cases s'; simp_all
+
+theorem EqUpToXyz.run {e : Eff ℝ} (he : e.WF) {a b : Atom ℝ} (h : EqUpToXyz a b) : EqUpToXyz (e.run a) (e.run b) := by
+  obtain ⟨h1, h2, h3, h4, h5, h6⟩ := h
+  cases e with
+  | nop => exact ⟨h1, h2, h3, h4, h5, h6⟩
+  | names f => exact ⟨by simp only [Eff.run, h1, h2], by simp only [Eff.run, h1, h2], h3, h4, h5, h6⟩
+  | pos f => exact ⟨h1, h2, h3, h4, h5, h6⟩
+  | occ v => exact ⟨h1, h2, rfl, h4, h5, h6⟩
+  | adp f =>
+    have hb : b.s = { a.s with xyz := b.s.xyz } := by
+      cases hs : b.s; cases ht : a.s; simp_all
+    have := he.indep a.s b.s.xyz
+    simp only [Eff.run, Atom.liftS]
+    rw [hb, this]
+    exact ⟨h1, h2, h3, rfl, rfl, rfl⟩
+
+/-- a position effect leaves everything but the position -/
+theorem EqUpToXyz.pos_left (f : Option (LatData ℝ) → Vec3 ℝ → Vec3 ℝ) {a b : Atom ℝ} (h : EqUpToXyz a b) :
+    EqUpToXyz ((Eff.pos f).run a) b := h
+
+
+/-- the fractional spelling of a column, given the fractional coordinates `f` of the point -/
+noncomputable def toFractCol (f : Vec3 ℝ) (c : Col ℝ) : Col ℝ :=
+  match c.1 with
+  | .cartn k => (.fract k, { text := c.2.text, num := some (f.getIx k) })
+  | _ => c
+
+theorem upToXyz_map (f : Vec3 ℝ) (cols : List (Col ℝ)) :
+    ∀ a b : Atom ℝ, EqUpToXyz a b → EqUpToXyz (applyCols (cols.map (toFractCol f)) a) (applyCols cols b) := by
+  induction cols with
+  | nil => intro a b h; exact h
+  | cons c cs ih =>
+    intro a b h
+    simp only [applyCols, List.map_cons, List.foldl_cons] at ih ⊢
+    apply ih
+    obtain ⟨it, v⟩ := c
+    cases it <;> exact EqUpToXyz.run (eff_wf _ _) h
+
+/-- component writes -/
+def wstep (tgt : Col ℝ → Option (Ix × ℝ)) (u : Vec3 ℝ) (c : Col ℝ) : Vec3 ℝ :=
+  match tgt c with
+  | some (k, v) => u.setIx k v
+  | none => u
+
+theorem getIx_setIx (u : Vec3 ℝ) (k k' : Ix) (v : ℝ) : (u.setIx k v).getIx k' = if k' = k then v else u.getIx k' := by
+  cases k <;> cases k' <;> rfl
+
+theorem Vec3.ext_getIx {u w : Vec3 ℝ} (h : ∀ k, u.getIx k = w.getIx k) : u = w := by
+  cases u; cases w
+  have h0 := h .i0; have h1 := h .i1; have h2 := h .i2
+  simp only [Vec3.getIx] at h0 h1 h2
+  simp [h0, h1, h2]
+
+theorem foldl_wstep_keep (tgt : Col ℝ → Option (Ix × ℝ)) (r : Vec3 ℝ) (k : Ix) (cols : List (Col ℝ))
+    (hr : ∀ c ∈ cols, ∀ k v, tgt c = some (k, v) → v = r.getIx k) :
+    ∀ u : Vec3 ℝ, u.getIx k = r.getIx k → (cols.foldl (wstep tgt) u).getIx k = r.getIx k := by
+  induction cols with
+  | nil => intro u h; exact h
+  | cons c cs ih =>
+    intro u h
+    simp only [List.foldl_cons]
+    apply ih (fun c hc => hr c (List.mem_cons_of_mem _ hc))
+    unfold wstep
+    cases ht : tgt c with
+    | none => exact h
+    | some kv =>
+      obtain ⟨k', v⟩ := kv
+      simp only [getIx_setIx]
+      split
+      · rename_i hk; rw [hk]; exact hr c (by simp) k' v ht
+      · exact h
+
+theorem foldl_wstep_hit (tgt : Col ℝ → Option (Ix × ℝ)) (r : Vec3 ℝ) (k : Ix) (cols : List (Col ℝ))
+    (hr : ∀ c ∈ cols, ∀ k v, tgt c = some (k, v) → v = r.getIx k)
+    (hk : ∃ c ∈ cols, ∃ v, tgt c = some (k, v)) :
+    ∀ u : Vec3 ℝ, (cols.foldl (wstep tgt) u).getIx k = r.getIx k := by
+  induction cols with
+  | nil => obtain ⟨c, hc, _⟩ := hk; simp at hc
+  | cons c cs ih =>
+    intro u
+    simp only [List.foldl_cons]
+    have hr' : ∀ c ∈ cs, ∀ k v, tgt c = some (k, v) → v = r.getIx k := fun c hc => hr c (List.mem_cons_of_mem _ hc)
+    by_cases hcs : ∃ c ∈ cs, ∃ v, tgt c = some (k, v)
+    · exact ih hr' hcs _
+    · obtain ⟨c', hc', v, hv⟩ := hk
+      have : c' = c := by
+        rcases List.mem_cons.1 hc' with h | h
+        · exact h
+        · exact absurd ⟨c', h, v, hv⟩ hcs
+      subst this
+      apply foldl_wstep_keep tgt r k cs hr'
+      simp only [wstep, hv, getIx_setIx, if_true]
+      exact hr c' (by simp) k v hv
+
+/-- when every component is written, and always with the component of `r`, the result is `r` -/
+theorem foldl_wstep_all (tgt : Col ℝ → Option (Ix × ℝ)) (r : Vec3 ℝ) (cols : List (Col ℝ))
+    (hr : ∀ c ∈ cols, ∀ k v, tgt c = some (k, v) → v = r.getIx k)
+    (hall : ∀ k, ∃ c ∈ cols, ∃ v, tgt c = some (k, v)) (u : Vec3 ℝ) : cols.foldl (wstep tgt) u = r :=
+  Vec3.ext_getIx fun k => foldl_wstep_hit tgt r k cols hr (hall k) u
+
+
+/-- Cartesian component a column writes -/
+noncomputable def cartnTgt (c : Col ℝ) : Option (Ix × ℝ) :=
+  match c.1 with
+  | .cartn k => some (k, numOf c.2 0)
+  | _ => none
+
+/-- fractional component a column writes -/
+noncomputable def fractTgt (c : Col ℝ) : Option (Ix × ℝ) :=
+  match c.1 with
+  | .fract k => some (k, numOf c.2 0)
+  | _ => none
+
+/-- in Cartesian coordinates the `Cartn` columns are component writes (no fractional column in the row) -/
+theorem cart_applyCols {l : LatData ℝ} (hl : LatOK l) (cols : List (Col ℝ)) (hnf : ∀ c ∈ cols, isFract c.1 = false) :
+    ∀ a : Atom ℝ, a.s.lat = some l → l.cart (applyCols cols a).s.xyz = cols.foldl (wstep cartnTgt) (l.cart a.s.xyz) := by
+  induction cols with
+  | nil => intro a _; rfl
+  | cons c cs ih =>
+    intro a ha
+    simp only [applyCols, List.foldl_cons] at ih ⊢
+    rw [ih (fun c hc => hnf c (List.mem_cons_of_mem _ hc)) _ (by rw [lat_after]; exact ha)]
+    congr 1
+    have hc := hnf c (by simp)
+    obtain ⟨it, v⟩ := c
+    cases it <;> simp only [isFract, reduceCtorEq] at hc <;>
+      simp only [applySetter, eff, Eff.run, Atom.liftS, Atom.movePos, Atom.setOcc, wstep, cartnTgt, setCartnIx, ha,
+        cart_frac hl, (setUiso_adpFn _).xyz, (setAniso_adpFn _).xyz, (setUij_adpFn _ _ _).xyz]
+
+/-- the fractional columns are component writes of `xyz` (no Cartesian column in the row) -/
+theorem xyz_applyCols (cols : List (Col ℝ)) (hnc : ∀ c ∈ cols, isCartn c.1 = false) :
+    ∀ a : Atom ℝ, (applyCols cols a).s.xyz = cols.foldl (wstep fractTgt) a.s.xyz := by
+  induction cols with
+  | nil => intro a; rfl
+  | cons c cs ih =>
+    intro a
+    simp only [applyCols, List.foldl_cons] at ih ⊢
+    rw [ih (fun c hc => hnc c (List.mem_cons_of_mem _ hc))]
+    congr 1
+    have hc := hnc c (by simp)
+    obtain ⟨it, v⟩ := c
+    cases it <;> simp only [isCartn, reduceCtorEq] at hc <;>
+      simp only [applySetter, eff, Eff.run, Atom.liftS, Atom.movePos, Atom.setOcc, wstep, fractTgt, setXyzIx,
+        (setUiso_adpFn _).xyz, (setAniso_adpFn _).xyz, (setUij_adpFn _ _ _).xyz]
+
+/-- **Cartesian vs fractional.**  In a genuine lattice `l`, a row that gives the three Cartesian coordinates `r`
+(columns in any position and order, no fractional column) builds the same atom as the row in which these columns give
+the fractional coordinates `l.fractional r`. -/
+theorem cartn_vs_fract {l : LatData ℝ} (hl : LatOK l) (a : Atom ℝ) (ha : a.s.lat = some l) (r : Vec3 ℝ)
+    (cols : List (Col ℝ))
+    (hr : ∀ c ∈ cols, ∀ k, c.1 = .cartn k → numOf c.2 0 = r.getIx k)
+    (hall : ∀ k, ∃ c ∈ cols, c.1 = .cartn k)
+    (hnf : ∀ c ∈ cols, isFract c.1 = false) :
+    applyCols (cols.map (toFractCol (frac l r))) a = applyCols cols a := by
+  refine (upToXyz_map (frac l r) cols a a ⟨rfl, rfl, rfl, rfl, rfl, rfl⟩).eq ?_
+  -- the Cartesian side: `cart xyz = r`, hence `xyz = fractional r`
+  have hc : l.cart (applyCols cols a).s.xyz = r := by
+    rw [cart_applyCols hl cols hnf a ha]
+    refine foldl_wstep_all cartnTgt r cols ?_ ?_ _
+    · intro c hc k v ht
+      obtain ⟨it, w⟩ := c
+      cases it <;> simp only [cartnTgt, reduceCtorEq, Option.some.injEq, Prod.mk.injEq] at ht
+      obtain ⟨rfl, rfl⟩ := ht
+      exact hr _ hc _ rfl
+    · intro k
+      obtain ⟨c, hc, hk⟩ := hall k
+      exact ⟨c, hc, numOf c.2 0, by simp only [cartnTgt, hk]⟩
+  have hx : (applyCols cols a).s.xyz = frac l r := by rw [← hc, frac_cart hl]
+  rw [hx, xyz_applyCols]
+  · refine foldl_wstep_all fractTgt (frac l r) _ ?_ ?_ _
+    · intro c hc k v ht
+      obtain ⟨c0, hc0, rfl⟩ := List.mem_map.1 hc
+      obtain ⟨it, w⟩ := c0
+      cases it <;> simp only [toFractCol, fractTgt, reduceCtorEq, Option.some.injEq, Prod.mk.injEq] at ht
+      · exact absurd (hnf _ hc0) (by simp [isFract])
+      · obtain ⟨rfl, rfl⟩ := ht
+        rfl
+    · intro k
+      obtain ⟨c, hc, hk⟩ := hall k
+      refine ⟨toFractCol (frac l r) c, List.mem_map.2 ⟨c, hc, rfl⟩, (frac l r).getIx k, ?_⟩
+      obtain ⟨it, w⟩ := c
+      simp only at hk
+      subst hk
+      rfl
+  · intro c hc
+    obtain ⟨c0, _, rfl⟩ := List.mem_map.1 hc
+    obtain ⟨it, w⟩ := c0
+    cases it <;> rfl
+
+/-- non-vacuity: Cartesian columns in the order z, x, y between other columns, in the oblique lattice `obl` -/
+noncomputable def demoCartn : List (Col ℝ) :=
+  [(.cartn .i2, ⟨"0.5", some (1 / 2)⟩), (.label, ⟨"O1", none⟩), (.cartn .i0, ⟨"4.0", some 4⟩),
+   (.uiso, ⟨"0.01", some (1 / 100)⟩), (.cartn .i1, ⟨"2.0", some 2⟩)]
+
+example : applyCols (demoCartn.map (toFractCol (frac DS.Props.C09.obl ⟨4, 2, 1 / 2⟩))) aObl = applyCols demoCartn aObl :=
+  cartn_vs_fract DS.Props.C09.obl_ok aObl rfl ⟨4, 2, 1 / 2⟩ demoCartn
+    (by intro c hc k hk
+        simp only [demoCartn, List.mem_cons, List.mem_nil_iff, or_false] at hc
+        rcases hc with rfl | rfl | rfl | rfl | rfl <;> simp only [reduceCtorEq, Item.cartn.injEq] at hk <;> subst hk <;>
+          simp [numOf, Vec3.getIx])
+    (by intro k; cases k <;> simp [demoCartn])
+    (by intro c hc
+        simp only [demoCartn, List.mem_cons, List.mem_nil_iff, or_false] at hc
+        rcases hc with rfl | rfl | rfl | rfl | rfl <;> rfl)
+
+/-! ## the aniso loop: any row order, and what a `?` label does -/
+
+/-- the state after a row of the aniso loop that is processed without error -/
+noncomputable def anisoUpd (its : List Item) (st : PState ℝ) (vals : List (Value ℝ)) (lb : String) (idx : Nat) (a0 : Atom ℝ) :
+    PState ℝ :=
+  { st with
+    atoms := st.atoms.set idx
+      (applyCols (its.zip vals) (if (st.anisotropy lb).isSome then a0 else a0.liftS (AtomS.setAniso true))),
+    anisotropy := if (st.anisotropy lb).isSome then st.anisotropy else st.anisotropy.set lb true }
+
+/-- a row is processed iff it has a label other than `?` that `labelindex` knows and all its numbers are readable -/
+theorem anisoRow_run_iff (its : List Item) (ilb : Nat) (st st1 : PState ℝ) (vals : List (Value ℝ)) :
+    anisoRow its ilb st vals = .run st1 ↔
+      ∃ lb idx a0, rowLabel ilb vals = some lb ∧ lb ≠ "?" ∧ st.labelindex lb = some idx ∧ st.atoms[idx]? = some a0 ∧
+        colsValid (its.zip vals) = true ∧ st1 = anisoUpd its st vals lb idx a0 := by
+  unfold anisoRow
+  cases hl : rowLabel ilb vals with
+  | none => simp
+  | some lb =>
+    by_cases hq : lb = "?"
+    · simp [hq]
+    · cases hi : st.labelindex lb with
+      | none => simp [hq, hi]
+      | some idx =>
+        cases ha : st.atoms[idx]? with
+        | none => simp [hq, hi, ha]
+        | some a0 =>
+          cases hv : colsValid (its.zip vals) with
+          | false => simp [hq, hi, ha, hv]
+          | true =>
+            simp only [beq_iff_eq, hq, if_false, hi, ha, hv, Bool.not_true, Bool.false_eq_true, LoopSt.run.injEq,
+              Option.some.injEq, ne_eq, not_false_eq_true, true_and, exists_and_left, exists_eq_left', anisoUpd]
+            exact eq_comm
+
+theorem anisoRow_done_iff (its : List Item) (ilb : Nat) (st st1 : PState ℝ) (vals : List (Value ℝ)) :
+    anisoRow its ilb st vals = .done st1 ↔ rowLabel ilb vals = some "?" ∧ st1 = st := by
+  unfold anisoRow
+  cases hl : rowLabel ilb vals with
+  | none => simp
+  | some lb =>
+    by_cases hq : lb = "?"
+    · simp [hq, eq_comm]
+    · cases hi : st.labelindex lb with
+      | none => simp [hq, hi]
+      | some idx =>
+        cases ha : st.atoms[idx]? with
+        | none => simp [hq, hi, ha]
+        | some a0 =>
+          cases hv : colsValid (its.zip vals) <;> simp [hq, hi, ha, hv]
+
+
+theorem anisoUpd_labelindex (its : List Item) (st : PState ℝ) (vals : List (Value ℝ)) (lb : String) (idx : Nat) (a0 : Atom ℝ) :
+    (anisoUpd its st vals lb idx a0).labelindex = st.labelindex := rfl
+
+theorem anisoUpd_length (its : List Item) (st : PState ℝ) (vals : List (Value ℝ)) (lb : String) (idx : Nat) (a0 : Atom ℝ) :
+    (anisoUpd its st vals lb idx a0).atoms.length = st.atoms.length := by simp [anisoUpd]
+
+/-- whether a row raises depends on the state only through `labelindex` and the number of atoms -/
+theorem anisoRow_err_of (its : List Item) (ilb : Nat) {st st' : PState ℝ} (vals : List (Value ℝ))
+    (hli : st'.labelindex = st.labelindex) (hlen : st'.atoms.length = st.atoms.length)
+    (h : anisoRow its ilb st vals = .err) : anisoRow its ilb st' vals = .err := by
+  cases h' : anisoRow its ilb st' vals with
+  | err => rfl
+  | done s =>
+    have := (anisoRow_done_iff its ilb st' s vals).1 h'
+    rw [(anisoRow_done_iff its ilb st st vals).2 ⟨this.1, rfl⟩] at h
+    cases h
+  | run s =>
+    obtain ⟨lb, idx, a0', h1, h2, h3, h4, h5, -⟩ := (anisoRow_run_iff its ilb st' s vals).1 h'
+    have hlt : idx < st.atoms.length := by
+      rw [← hlen]
+      exact (List.getElem?_eq_some_iff.1 h4).1
+    have : anisoRow its ilb st vals = .run (anisoUpd its st vals lb idx st.atoms[idx]) :=
+      (anisoRow_run_iff its ilb st _ vals).2 ⟨lb, idx, _, h1, h2, by rw [← hli]; exact h3,
+        List.getElem?_eq_getElem hlt, h5, rfl⟩
+    rw [this] at h
+    cases h
+
+theorem Dict.set_ne {β : Type} (d : Dict β) {k k' : String} (h : k' ≠ k) (v : β) : (d.set k v) k' = d k' := by
+  simp [Dict.set, h]
+
+theorem Dict.set_comm {β : Type} (d : Dict β) {k k' : String} (h : k ≠ k') (v w : β) :
+    (d.set k v).set k' w = (d.set k' w).set k v := by
+  funext x
+  simp only [Dict.set]
+  split_ifs with h1 h2
+  · exact absurd (h2.symm.trans h1) h
+  · rfl
+  · rfl
+  · rfl
+
+/-- `labelindex` sends different labels to different atoms -/
+def LabelInj (d : Dict Nat) : Prop := ∀ l l' i, d l = some i → d l' = some i → l = l'
+
+/-- two processed rows with different labels can be exchanged -/
+theorem anisoUpd_comm (its : List Item) (st : PState ℝ) (x y : List (Value ℝ)) {lb lb' : String} {i j : Nat} {a b : Atom ℝ}
+    (hne : lb ≠ lb') (hij : i ≠ j) :
+    anisoUpd its (anisoUpd its st x lb i a) y lb' j b = anisoUpd its (anisoUpd its st y lb' j b) x lb i a := by
+  have n1 : ∀ (d : Dict Bool) (v : Bool), (d.set lb v) lb' = d lb' := fun d v => Dict.set_ne d hne.symm v
+  have n2 : ∀ (d : Dict Bool) (v : Bool), (d.set lb' v) lb = d lb := fun d v => Dict.set_ne d hne v
+  unfold anisoUpd
+  by_cases h1 : (st.anisotropy lb).isSome = true <;> by_cases h2 : (st.anisotropy lb').isSome = true <;>
+    simp only [h1, h2, if_true, if_false, n1, n2, Bool.false_eq_true] <;>
+    rw [List.set_comm _ _ hij]
+  rw [Dict.set_comm _ hne]
+
+
+theorem anisoRow_comm (its : List Item) (ilb : Nat) (st : PState ℝ) (hinj : LabelInj st.labelindex)
+    (x y : List (Value ℝ)) (hx : rowLabel ilb x ≠ some "?") (hy : rowLabel ilb y ≠ some "?")
+    (hxy : rowLabel ilb x ≠ rowLabel ilb y) :
+    anisoStep its ilb (anisoRow its ilb st x) y = anisoStep its ilb (anisoRow its ilb st y) x := by
+  cases h1 : anisoRow its ilb st x with
+  | done s => exact absurd ((anisoRow_done_iff its ilb st s x).1 h1).1 hx
+  | err =>
+    cases h2 : anisoRow its ilb st y with
+    | done s => exact absurd ((anisoRow_done_iff its ilb st s y).1 h2).1 hy
+    | err => rfl
+    | run s2 =>
+      obtain ⟨lb, idx, a0, -, -, -, -, -, rfl⟩ := (anisoRow_run_iff its ilb st s2 y).1 h2
+      simp only [anisoStep]
+      exact (anisoRow_err_of its ilb x (anisoUpd_labelindex ..) (anisoUpd_length ..) h1).symm
+  | run s1 =>
+    obtain ⟨lb, i, a, l1, q1, i1, a1, v1, rfl⟩ := (anisoRow_run_iff its ilb st s1 x).1 h1
+    cases h2 : anisoRow its ilb st y with
+    | done s => exact absurd ((anisoRow_done_iff its ilb st s y).1 h2).1 hy
+    | err =>
+      simp only [anisoStep]
+      exact anisoRow_err_of its ilb y (anisoUpd_labelindex ..) (anisoUpd_length ..) h2
+    | run s2 =>
+      obtain ⟨lb', j, b, l2, q2, i2, a2, v2, rfl⟩ := (anisoRow_run_iff its ilb st s2 y).1 h2
+      have hne : lb ≠ lb' := fun e => hxy (by rw [l1, l2, e])
+      have hij : i ≠ j := fun e => hne (hinj lb lb' i i1 (by rw [e]; exact i2))
+      simp only [anisoStep]
+      have e1 : anisoRow its ilb (anisoUpd its st x lb i a) y =
+          .run (anisoUpd its (anisoUpd its st x lb i a) y lb' j b) :=
+        (anisoRow_run_iff its ilb _ _ y).2 ⟨lb', j, b, l2, q2, i2, by
+          show (st.atoms.set i _)[j]? = some b
+          rw [List.getElem?_set_ne hij]; exact a2, v2, rfl⟩
+      have e2 : anisoRow its ilb (anisoUpd its st y lb' j b) x =
+          .run (anisoUpd its (anisoUpd its st y lb' j b) x lb i a) :=
+        (anisoRow_run_iff its ilb _ _ x).2 ⟨lb, i, a, l1, q1, i1, by
+          show (st.atoms.set j _)[i]? = some a
+          rw [List.getElem?_set_ne hij.symm]; exact a1, v1, rfl⟩
+      rw [e1, e2, anisoUpd_comm its st x y hne hij]
+
+/-- **Any row order in the aniso loop.**  When no row carries the label `?`, the labels are pairwise different and
+`labelindex` sends different labels to different atoms (which the site loop guarantees, `siteLoop_labelInj`), the rows
+of the `_atom_site_aniso_label` loop may come in any order: same atoms, same `anisotropy` dictionary, same errors. -/
+theorem aniso_loop_order (its : List Item) (ilb : Nat) (st : PState ℝ) (hinj : LabelInj st.labelindex)
+    {rows rows' : List (List (Value ℝ))} (hp : rows.Perm rows')
+    (hq : ∀ r ∈ rows, rowLabel ilb r ≠ some "?")
+    (hd : rows.Pairwise (fun r r' => rowLabel ilb r ≠ rowLabel ilb r')) :
+    anisoLoop its ilb st rows = anisoLoop its ilb st rows' := by
+  unfold anisoLoop
+  refine perm_foldl_rel (anisoStep its ilb) Eq
+    (fun ls l => (∀ r ∈ l, rowLabel ilb r ≠ some "?") ∧ l.Pairwise (fun r r' => rowLabel ilb r ≠ rowLabel ilb r') ∧
+      ∀ s, ls = LoopSt.run s → LabelInj s.labelindex)
+    (fun _ => rfl) (fun _ _ _ => Eq.trans) (fun _ _ _ h => by rw [h]) ?_ ?_ ?_ hp (.run st)
+    ⟨hq, hd, fun s h => by cases h; exact hinj⟩
+  · intro ls x l ⟨h1, h2, h3⟩
+    refine ⟨fun r hr => h1 r (List.mem_cons_of_mem _ hr), (List.pairwise_cons.1 h2).2, ?_⟩
+    intro s hs
+    cases ls with
+    | done s' => simp [anisoStep] at hs
+    | err => simp [anisoStep] at hs
+    | run s' =>
+      simp only [anisoStep] at hs
+      obtain ⟨lb, idx, a0, -, -, -, -, -, rfl⟩ := (anisoRow_run_iff its ilb s' s x).1 hs
+      exact h3 s' rfl
+  · intro ls x y l ⟨h1, h2, h3⟩
+    cases ls with
+    | done s' => rfl
+    | err => rfl
+    | run s' =>
+      simp only [anisoStep]
+      exact anisoRow_comm its ilb s' (h3 s' rfl) x y (h1 x (by simp)) (h1 y (by simp))
+        ((List.pairwise_cons.1 h2).1 y (by simp))
+  · intro ls l l' hp ⟨h1, h2, h3⟩
+    exact ⟨fun r hr => h1 r (hp.mem_iff.2 hr), (hp.pairwise_iff (fun h => Ne.symm h)).1 h2, h3⟩
+
+
+/-! ### the label `?` -/
+
+/-- **Site loop: a row whose label is `?` contributes nothing** — no atom, no dictionary entry, and its other values
+are not even read (a non-number in such a row is not an error). -/
+theorem label_unknown_q_site (lat : Option (LatData ℝ)) (its : List Item) (ilb : Nat) (doesAdp : Bool)
+    (r : List (Value ℝ)) (hr : rowLabel ilb r = some "?") (rows1 rows2 : List (List (Value ℝ))) (st : PState ℝ) :
+    siteLoop lat its ilb doesAdp st (rows1 ++ r :: rows2) = siteLoop lat its ilb doesAdp st (rows1 ++ rows2) := by
+  induction rows1 generalizing st with
+  | nil =>
+    have : siteRow lat its ilb doesAdp st r = some st := by simp [siteRow, hr]
+    simp only [List.nil_append, siteLoop, this]
+  | cons x xs ih =>
+    simp only [List.cons_append, siteLoop]
+    cases siteRow lat its ilb doesAdp st x with
+    | none => rfl
+    | some st' => exact ih st'
+
+theorem foldl_anisoStep_done (its : List Item) (ilb : Nat) (s : PState ℝ) (rows : List (List (Value ℝ))) :
+    rows.foldl (anisoStep its ilb) (.done s) = .done s := by
+  induction rows with
+  | nil => rfl
+  | cons x xs ih => exact ih
+
+theorem foldl_anisoStep_err (its : List Item) (ilb : Nat) (rows : List (List (Value ℝ))) :
+    rows.foldl (anisoStep its ilb) (.err : LoopSt (PState ℝ)) = .err := by
+  induction rows with
+  | nil => rfl
+  | cons x xs ih => exact ih
+
+/-- **Aniso loop: a row whose label is `?` ends the loop** (`break`, not `continue`): the rows after it are not read at
+all — their atoms keep what the site loop gave them, and an unknown label or a non-number among them is not an error. -/
+theorem label_unknown_q_aniso (its : List Item) (ilb : Nat) (r : List (Value ℝ)) (hr : rowLabel ilb r = some "?")
+    (rows1 rows2 : List (List (Value ℝ))) (st : PState ℝ) :
+    (anisoLoop its ilb st (rows1 ++ r :: rows2)).result = (anisoLoop its ilb st rows1).result := by
+  simp only [anisoLoop, List.foldl_append, List.foldl_cons]
+  cases rows1.foldl (anisoStep its ilb) (.run st) with
+  | run s =>
+    have : anisoStep its ilb (.run s) r = .done s := by simp [anisoStep, anisoRow, hr]
+    rw [this, foldl_anisoStep_done]; rfl
+  | done s => simp only [anisoStep]; rw [foldl_anisoStep_done]
+  | err => simp only [anisoStep]; rw [foldl_anisoStep_err]
+
+/-- … so the rows after a `?` row are really not applied: not the same as skipping the `?` row -/
+theorem label_unknown_q_aniso_not_continue :
+    ∃ (its : List Item) (st : PState ℝ) (r x : List (Value ℝ)), rowLabel 0 r = some "?" ∧
+      (anisoLoop its 0 st [r, x]).result ≠ (anisoLoop its 0 st [x]).result := by
+  refine ⟨[.ignore], { atoms := [a0], labelindex := Dict.empty.set "C1" 0, anisotropy := Dict.empty },
+    [⟨"?", none⟩], [⟨"C1", none⟩], rfl, ?_⟩
+  intro h
+  simp [anisoLoop, anisoStep, anisoRow, rowLabel, LoopSt.result, Dict.set, Dict.empty, colsValid, valueOK, needsNum,
+    applyCols, applySetter, eff, Eff.run] at h
+  have := congrArg (fun a : Atom ℝ => a.s.aniso) h.1
+  simp [a0, Atom.fresh, AtomS.default, Atom.liftS, setAniso_aniso] at this
+
+
+/-! ### what the site loop guarantees for the aniso loop -/
+
+/-- invariant of the site loop: `labelindex` is injective and points into the atom list -/
+def SiteInv (st : PState ℝ) : Prop :=
+  LabelInj st.labelindex ∧ ∀ l i, st.labelindex l = some i → i < st.atoms.length
+
+theorem siteRow_inv {lat : Option (LatData ℝ)} {its : List Item} {ilb : Nat} {doesAdp : Bool} {st st' : PState ℝ}
+    {vals : List (Value ℝ)} (h : siteRow lat its ilb doesAdp st vals = some st') (hi : SiteInv st) : SiteInv st' := by
+  unfold siteRow at h
+  cases hl : rowLabel ilb vals with
+  | none => simp [hl] at h
+  | some cur =>
+    simp only [hl] at h
+    split at h
+    · cases h; exact hi
+    · split at h
+      · cases h
+      · cases h
+        obtain ⟨h1, h2⟩ := hi
+        constructor
+        · intro l l' i e1 e2
+          simp only [Dict.set] at e1 e2
+          split at e1 <;> split at e2
+          · rename_i p q; rw [p, q]
+          · cases e1; exact absurd (h2 _ _ e2) (Nat.lt_irrefl _)
+          · cases e2; exact absurd (h2 _ _ e1) (Nat.lt_irrefl _)
+          · exact h1 l l' i e1 e2
+        · intro l i e
+          simp only [Dict.set] at e
+          simp only [List.length_append, List.length_singleton]
+          split at e
+          · cases e; omega
+          · have := h2 l i e; omega
+
+theorem siteLoop_inv {lat : Option (LatData ℝ)} {its : List Item} {ilb : Nat} {doesAdp : Bool}
+    (rows : List (List (Value ℝ))) : ∀ {st st' : PState ℝ}, siteLoop lat its ilb doesAdp st rows = some st' →
+      SiteInv st → SiteInv st' := by
+  induction rows with
+  | nil => intro st st' h hi; cases h; exact hi
+  | cons r rs ih =>
+    intro st st' h hi
+    simp only [siteLoop] at h
+    cases hr : siteRow lat its ilb doesAdp st r with
+    | none => simp [hr] at h
+    | some s1 => rw [hr] at h; exact ih h (siteRow_inv hr hi)
+
+/-- the site loop sends different labels to different atoms -/
+theorem siteLoop_labelInj {lat : Option (LatData ℝ)} {lp : Loop ℝ} {st : PState ℝ} (h : parseSite lat lp = some st) :
+    LabelInj st.labelindex := by
+  unfold parseSite at h
+  split at h
+  · exact (siteLoop_inv _ h ⟨fun l l' i e => by simp [PState.empty, Dict.empty] at e,
+      fun l i e => by simp [PState.empty, Dict.empty] at e⟩).1
+  · cases h
+
+/-- **Any row order in the aniso loop, whole row phase**: for the state the site loop produces. -/
+theorem parseAtoms_aniso_order (lat : Option (LatData ℝ)) (site : Loop ℝ) (names : List String)
+    {rows rows' : List (List (Value ℝ))} (hp : rows.Perm rows')
+    (hq : ∀ ilb, names.idxOf? "_atom_site_aniso_label" = some ilb → ∀ r ∈ rows, rowLabel ilb r ≠ some "?")
+    (hd : ∀ ilb, names.idxOf? "_atom_site_aniso_label" = some ilb →
+      rows.Pairwise (fun r r' => rowLabel ilb r ≠ rowLabel ilb r')) :
+    parseAtoms lat site (some ⟨names, rows⟩) = parseAtoms lat site (some ⟨names, rows'⟩) := by
+  unfold parseAtoms
+  cases hs : parseSite lat site with
+  | none => rfl
+  | some st =>
+    simp only [Option.bind_some, parseAniso]
+    cases names.mapM itemOfName? with
+    | none => rfl
+    | some its =>
+      cases hi : names.idxOf? "_atom_site_aniso_label" with
+      | none => rfl
+      | some ilb =>
+        simp only
+        rw [aniso_loop_order its ilb st (siteLoop_labelInj hs) hp (hq ilb hi) (hd ilb hi)]
+
+
+/-- non-vacuity of `aniso_loop_order`: two atoms, two rows -/
+noncomputable def demoSt : PState ℝ :=
+  { atoms := [a0, a0], labelindex := (Dict.empty.set "A" 0).set "B" 1, anisotropy := Dict.empty }
+noncomputable def rowA : List (Value ℝ) := [⟨"A", none⟩, ⟨"0.01", some (1 / 100)⟩]
+noncomputable def rowB : List (Value ℝ) := [⟨"B", none⟩, ⟨"?", none⟩]
+
+example : anisoLoop [.ignore, .anisoU .p11] 0 demoSt [rowA, rowB] = anisoLoop [.ignore, .anisoU .p11] 0 demoSt [rowB, rowA] :=
+  aniso_loop_order _ 0 demoSt
+    (by intro l l' i e1 e2
+        simp only [demoSt, Dict.set, Dict.empty] at e1 e2
+        split at e1 <;> split at e2 <;> simp_all <;> omega)
+    (List.Perm.swap rowB rowA [])
+    (by intro r hr
+        simp only [List.mem_cons, List.mem_nil_iff, or_false] at hr
+        rcases hr with rfl | rfl <;> simp [rowLabel, rowA, rowB])
+    (by simp [rowLabel, rowA, rowB])
+
+/-! ## the name table -/
+
+theorem lookup_mem_snd {β : Type} (k : String) : ∀ (l : List (String × β)) (v : β), l.lookup k = some v → v ∈ l.map Prod.snd
+  | [], v, h => by simp at h
+  | (k', w) :: l, v, h => by
+    simp only [List.lookup_cons] at h
+    split at h
+    · cases h; simp
+    · exact List.mem_cons_of_mem _ (lookup_mem_snd k l v h)
+
+/-- `_get_atom_setters` never fails: every value of the name table (and the default) names a method of the class -/
+theorem itemOfName?_isSome (p : String) : (itemOfName? p).isSome = true := by
+  unfold itemOfName? fncName
+  cases h : setterTable.lookup ("_tr" ++ pyLower p) with
+  | none => rfl
+  | some v =>
+    have hv := lookup_mem_snd _ _ _ h
+    have : ∀ v ∈ setterTable.map Prod.snd, (setterAttrs.lookup v).isSome = true := by decide
+    exact this v hv
 
 end DS.Props.C07Row
